@@ -44,9 +44,10 @@ REG = {
             "'killed' = SIGKILL of the process at a system-call boundary: the directory is as the calls made so far left it (page cache survives); a single write(2) is all-or-nothing; power loss / fsync ordering is outside the statement and the model",
             "the YAML decoder is a parameter of the account-directory theorem (key_of: the login inside a complete record, None for anything else); the loaders themselves are run for real on every materialised crash state",
             "the system calls of each update are taken from strace of the real managers on every run (child process of the harness) and compared call by call with the model's scripts; calls outside the configuration directory are ignored; file contents written are inputs of the model (read back from the directory)",
+            "static side of the tie (Gen/Persist.v): a call inside a loop, an else branch or a closure is refused by the derivation; the account file is renamed exactly when the login changes, and the two paths are assumed to differ exactly then (filepath.Join of distinct clean logins)",
             "updates are made through the managers' own methods (FlatNews.Write, ThreadedNewsYAML.CreateGrouping/PostArticle/DeleteArticle, BanFile.Add, YAMLAccountManager.Create/Update/Delete), one at a time",
         ],
-        "trusted_base": ["std++ gmap", "strace 6.1 (-f -y -xx) and the trace parser / directory replayer in harness/c20.go (cross-checked on every run: the replayed directory must load to the same state as the directory the child left)", "modelled, not verified: kernel file-system semantics of open/write/rename/link/unlink"],
+        "trusted_base": ["std++ gmap", "translator: Gen/Persist.v (every file-system-changing call of internal/mobius by function; FS/PersistSpec.v derives the scripts from it, theorem C20_sources_issue_the_modelled_scripts)", "strace 6.1 (-f -y -xx) and the trace parser / directory replayer in harness/c20.go (cross-checked on every run: the replayed directory must load to the same state as the directory the child left)", "modelled, not verified: kernel file-system semantics of open/write/rename/link/unlink"],
     },
     "C19": {
         "assumptions": [
